@@ -132,14 +132,14 @@ TRUSTED = [
 ASSUME = [
     'the underlying io.ReadSeeker is an exact byte source (bytes.Reader in the runs)',
     'one Reader per block (ownership check ownedBy/setOwner not modelled)',
-    'rd > 1 is covered by this check through the correspondence of its observations with the rd = 1 model and the flat oracle; the schedule-driven model of the read-ahead is part of C03',
+    'rd > 1 (no cache): the schedule-driven model Model/ReaderAsync.v treats one iteration of the read-ahead loop (take a decompressor from waiting, poll or park on control, fetch, send to working) as atomic; it is tied to the code by the correspondence runs of C03 (natural and gated schedules), and this check judges the rd > 1 runs by the flat oracle',
 ]
 
 CLAIM = dict(
     text='Machine-checked proof (Coq 8.16.1) that the rd = 1 reader model (Seek/Read/ReadByte/Blocked/LastChunk followed statement by statement, blocks recycled through a store) '
          'returns, for every well-formed file and every history of valid calls, exactly the bytes, end-of-data conditions and LastChunk positions of a flat copy with a cursor; '
-         'every call returns; seeking to a reported Begin replays the read. The model is run against the implementation on generated histories on every run; a flat-copy oracle judges the implementation directly (rd in {1,2,3,8}).',
+         'every call returns; seeking to a reported Begin replays the read. The same is proved for the reader with the read-ahead goroutine (rd >= 2, no cache) under every schedule of that goroutine: every call returns (no "unexpected block" panic, no deadlock) with the flat observations (reader_async_refines_flat_partial, invariant AInv). The rd = 1 model is run against the implementation on generated histories on every run; a flat-copy oracle judges the implementation directly (rd in {1,2,3,8}).',
     note='Partial: LastChunk.End is proved for files whose members hold at most 65535 bytes; for a 65536-byte member the 16-bit in-block offset wraps (recorded finding, refuted in Coq). '
-         'rd > 1 is tied by observation only. Trusted: Coq kernel, the hand model (validated by the correspondence run), abstract decompression. No axioms.',
+         'The rd > 1 theorem is about a model in which one read-ahead iteration is atomic; that model is tied to the code in C03. Trusted: Coq kernel, the hand model (validated by the correspondence run), abstract decompression. No axioms.',
     technique='Coq proof over a hand model + vm_compute correspondence + flat-copy oracle',
     design='6/C02')
